@@ -4,49 +4,51 @@ From Hts Require Import Base.Prim Generated Model.FaultWriter Model.FaultReader.
 Import ListNotations.
 Open Scope Z_scope.
 
-Lemma reader_invalidates : bgzf_reader_invalidates = true.
+Lemma reader_invalidates : reader_variant = rfixed.
 Proof. reflexivity. Qed.
 
 (** The block the reader serves bytes from is the member of the file that
     starts at the block's base: base, size and data all belong together. *)
 Definition binv (s : rst) : Prop :=
-  cvalid s = true -> member_at (file s) (cbase s) = Some (chsize s, cdata s).
+  croff s = r_pos (src s) /\
+  (cvalid s = true -> member_at (file s) (cbase s) = Some (chsize s, cdata s)).
 
 (** The file never changes. *)
 Definition same_file (s s' : rst) : Prop := file s' = file s.
 
-Lemma fetch_ok : forall s s' e, fetch true s = (s', e) -> binv s' /\ same_file s s' /\ (e = 0 -> cvalid s' = true /\ coff s' = 0).
+Lemma fetch_ok : forall s s' e, croff s = r_pos (src s) -> fetch rfixed s = (s', e) ->
+  binv s' /\ same_file s s' /\ (e = 0 -> cvalid s' = true /\ coff s' = 0 /\ cbase s' = croff s).
 Proof.
-  intros s s' e H. unfold fetch in H.
+  intros s s' e R H. unfold fetch in H. simpl in H. rewrite <- R in H.
   destruct (faulty (src s) && (r_x (src s) <=? croff s)).
   { injection H as H1 H2; subst. unfold binv, same_file; simpl. repeat split; try discriminate; intros; discriminate. }
   destruct (flen (file s) <=? croff s).
   { injection H as H1 H2; subst. unfold binv, same_file; simpl. repeat split; try discriminate; intros; discriminate. }
   destruct (member_at (file s) (croff s)) as [[sz d]|] eqn:M.
   - destruct (faulty (src s) && (r_x (src s) <? croff s + sz)).
-    + injection H as H1 H2; subst. unfold binv, same_file; simpl. repeat split; try discriminate; intros; discriminate.
+    + injection H as H1 H2; subst. unfold binv, same_file; simpl. repeat split; try discriminate; try lia; intros; discriminate.
     + injection H as H1 H2; subst. unfold binv, same_file; simpl. repeat split; auto.
   - injection H as H1 H2; subst. unfold binv, same_file; simpl. repeat split; try discriminate; intros; discriminate.
 Qed.
 
-Lemma nba_ok : forall s off s' e, binv s -> next_block_at true s off = (s', e) ->
-  binv s' /\ same_file s s' /\ (e = 0 -> cvalid s' = true /\ coff s' = 0).
+Lemma nba_ok : forall s off s' e, binv s -> next_block_at rfixed s off = (s', e) ->
+  binv s' /\ same_file s s' /\ (e = 0 -> cvalid s' = true /\ coff s' = 0 /\ cbase s' = off).
 Proof.
-  intros s off s' e B H. unfold next_block_at in H.
-  destruct (croff s =? off).
-  - apply fetch_ok in H. exact H.
+  intros s off s' e B H. destruct B as [R B]. unfold next_block_at in H.
+  destruct (croff s =? off) eqn:E.
+  - apply Z.eqb_eq in E. apply fetch_ok in H; [|exact R]. rewrite E in H. exact H.
   - destruct ((r_seeks (src s) =? r_seekk (src s)) || (off <? 0)) eqn:F.
-    + injection H as H1 H2; subst. unfold binv, same_file in *; simpl. split; [exact B | split; [reflexivity|]].
+    + injection H as H1 H2; subst. unfold binv, same_file in *; simpl. split; [split; [exact R | exact B] | split; [reflexivity|]].
       intros X. exfalso. destruct (off <? 0); discriminate.
-    + apply fetch_ok in H. unfold same_file in *. simpl in H. exact H.
+    + apply fetch_ok in H; [|reflexivity]. unfold same_file in *. simpl in H. exact H.
 Qed.
 
-Lemma skip_ok : forall fuel s s' e, binv s -> skip_empty true fuel s = (s', e) -> binv s' /\ same_file s s'.
+Lemma skip_ok : forall fuel s s' e, binv s -> skip_empty rfixed fuel s = (s', e) -> binv s' /\ same_file s s'.
 Proof.
   induction fuel as [|f IH]; intros s s' e B H; simpl in H.
   - injection H as H1 H2; subst. split; [exact B | reflexivity].
   - destruct (cur_len s =? 0).
-    + unfold next_block in H. destruct (next_block_at true s (next_base s)) as [s1 e1] eqn:N.
+    + unfold next_block in H. destruct (next_block_at rfixed s (next_base s)) as [s1 e1] eqn:N.
       destruct (nba_ok _ _ _ _ B N) as [B1 [S1 _]].
       destruct (e1 =? 0).
       * destruct (IH _ _ _ B1 H) as [B2 S2]. split; [exact B2 | unfold same_file in *; congruence].
@@ -55,14 +57,14 @@ Proof.
 Qed.
 
 (** Bytes handed out by one Read: every chunk appended is a segment of the data of a block satisfying [binv]. *)
-Lemma loop_ok : forall fuel s want got s' e out, binv s -> read_loop true fuel s want got = (s', e, out) -> binv s' /\ same_file s s'.
+Lemma loop_ok : forall fuel s want got s' e out, binv s -> read_loop rfixed fuel s want got = (s', e, out) -> binv s' /\ same_file s s'.
 Proof.
   induction fuel as [|f IH]; intros s want got s' e out B H; simpl in H.
   - injection H as H1 H2 H3; subst. split; [exact B | reflexivity].
   - destruct (want <=? 0).
     + injection H as H1 H2 H3; subst. split; [exact B | reflexivity].
     + destruct (cur_len s =? 0).
-      * unfold next_block in H. destruct (next_block_at true s (next_base s)) as [s1 e1] eqn:N.
+      * unfold next_block in H. destruct (next_block_at rfixed s (next_base s)) as [s1 e1] eqn:N.
         destruct (nba_ok _ _ _ _ B N) as [B1 [S1 _]].
         destruct (e1 =? 0).
         -- destruct (IH _ _ _ _ _ _ B1 H) as [B2 S2]. split; [exact B2 | unfold same_file in *; congruence].
@@ -70,32 +72,32 @@ Proof.
       * apply IH in H; [exact H|]. unfold binv in *. simpl. exact B.
 Qed.
 
-Lemma read_ok : forall s n s' e out, binv s -> do_read true s n = (s', e, out) -> binv s' /\ same_file s s'.
+Lemma read_ok : forall s n s' e out, binv s -> do_read rfixed s n = (s', e, out) -> binv s' /\ same_file s s'.
 Proof.
   intros s n s' e out B H. unfold do_read in H.
   destruct (negb (rerr s =? 0)).
   - injection H as H1 H2 H3; subst. split; [exact B | reflexivity].
-  - destruct (skip_empty true (2 * length (file s) + 6) s) as [s1 e1] eqn:K.
+  - destruct (skip_empty rfixed (2 * length (file s) + 6) s) as [s1 e1] eqn:K.
     destruct (skip_ok _ _ _ _ B K) as [B1 S1].
     destruct (negb (e1 =? 0)).
     + injection H as H1 H2 H3; subst. split; [unfold binv in *; simpl; exact B1 | exact S1].
-    + destruct (read_loop true (2 * length (file s) + 6) s1 n []) as [[s2 e2] got] eqn:L.
+    + destruct (read_loop rfixed (2 * length (file s) + 6) s1 n []) as [[s2 e2] got] eqn:L.
       destruct (loop_ok _ _ _ _ _ _ _ B1 L) as [B2 S2].
       injection H as H1 H2 H3; subst. split; [unfold binv in *; simpl; exact B2 | unfold same_file in *; simpl; congruence].
 Qed.
 
-Lemma seek_ok : forall s m w s' e, binv s -> do_seek true s m w = (s', e) -> binv s' /\ same_file s s'.
+Lemma seek_ok : forall s m w s' e, binv s -> do_seek rfixed s m w = (s', e) -> binv s' /\ same_file s s'.
 Proof.
   intros s m w s' e B H. unfold do_seek in H.
   destruct (negb (base_of (file s) m =? cbase s) || negb (cvalid s)).
-  - destruct (next_block_at true s (base_of (file s) m)) as [s1 e1] eqn:N.
+  - destruct (next_block_at rfixed s (base_of (file s) m)) as [s1 e1] eqn:N.
     destruct (nba_ok _ _ _ _ B N) as [B1 [S1 _]].
     destruct (e1 =? 0); injection H as H1 H2; subst; (split; [unfold binv in *; simpl; exact B1 | exact S1]).
   - injection H as H1 H2; subst. split; [unfold binv in *; simpl; exact B | reflexivity].
 Qed.
 
 (** State after a list of operations (mirrors [run_ops]). *)
-Fixpoint exec (inval : bool) (s : rst) (ops : list rop) : rst :=
+Fixpoint exec (inval : rvar) (s : rst) (ops : list rop) : rst :=
   match ops with
   | [] => s
   | RRead n :: r => let '(s1, _, _) := do_read inval s n in exec inval s1 r
@@ -103,13 +105,13 @@ Fixpoint exec (inval : bool) (s : rst) (ops : list rop) : rst :=
   | RClose :: r => exec inval s r
   end.
 
-Lemma exec_ok : forall ops s, binv s -> binv (exec true s ops) /\ file (exec true s ops) = file s.
+Lemma exec_ok : forall ops s, binv s -> binv (exec rfixed s ops) /\ file (exec rfixed s ops) = file s.
 Proof.
   induction ops as [|o r IH]; intros s B; simpl. split; [exact B | reflexivity].
   destruct o.
-  - destruct (do_read true s n) as [[s1 e] out] eqn:R. destruct (read_ok _ _ _ _ _ B R) as [B1 S1].
+  - destruct (do_read rfixed s n) as [[s1 e] out] eqn:R. destruct (read_ok _ _ _ _ _ B R) as [B1 S1].
     destruct (IH s1 B1) as [B2 S2]. split; [exact B2 | unfold same_file in *; congruence].
-  - destruct (do_seek true s (Z.to_nat m) w) as [s1 e] eqn:R. destruct (seek_ok _ _ _ _ _ B R) as [B1 S1].
+  - destruct (do_seek rfixed s (Z.to_nat m) w) as [s1 e] eqn:R. destruct (seek_ok _ _ _ _ _ B R) as [B1 S1].
     destruct (IH s1 B1) as [B2 S2]. split; [exact B2 | unfold same_file in *; congruence].
   - apply IH. exact B.
 Qed.
@@ -125,25 +127,84 @@ Proof.
 Qed.
 
 Lemma reader_blocks_sound_gen : forall f x trans seekk ops,
-  let '(s0, e0) := ropen true f x trans seekk in
-  let s := exec true s0 ops in
-  file s = f /\ (cvalid s = true -> member_at f (cbase s) = Some (chsize s, cdata s)).
+  let '(s0, e0) := ropen rfixed f x trans seekk in
+  let s := exec rfixed s0 ops in
+  file s = f /\ croff s = r_pos (src s) /\
+  (cvalid s = true -> member_at f (cbase s) = Some (chsize s, cdata s)).
 Proof.
   intros f x trans seekk ops. unfold ropen.
-  destruct (fetch true (rinit f x trans seekk)) as [s0 e0] eqn:F.
-  destruct (fetch_ok _ _ _ F) as [B0 [S0 _]]. unfold same_file in S0. simpl in S0.
-  destruct (exec_ok ops s0 B0) as [B S]. split; [congruence|].
+  destruct (fetch rfixed (rinit f x trans seekk)) as [s0 e0] eqn:F.
+  destruct (fetch_ok (rinit f x trans seekk) _ _ (eq_refl : croff (rinit f x trans seekk) = r_pos (src (rinit f x trans seekk))) F) as [B0 [S0 _]]. unfold same_file in S0. simpl in S0.
+  destruct (exec_ok ops s0 B0) as [[R B] S]. split; [congruence|]. split; [exact R|].
   intros V. specialize (B V). rewrite S, S0 in B. exact B.
+Qed.
+
+(** Every Seek that returns nil leaves the reader on the member that starts at
+    the requested offset, whatever happened before — in particular when an
+    earlier Seek to the same (or another) offset failed in the underlying
+    seeker: the count reader's offset is only advanced by a successful seek,
+    so the retry seeks again instead of trusting a position it never reached. *)
+Lemma seek_lands : forall s m w s', binv s -> do_seek rfixed s m w = (s', 0) ->
+  cvalid s' = true /\ cbase s' = base_of (file s) m /\ coff s' = w /\ rerr s' = 0 /\
+  member_at (file s) (base_of (file s) m) = Some (chsize s', cdata s').
+Proof.
+  intros s m w s' B H. pose proof (seek_ok _ _ _ _ _ B H) as [[R' B'] S]. unfold same_file in S.
+  unfold do_seek in H.
+  destruct (negb (base_of (file s) m =? cbase s) || negb (cvalid s)) eqn:C.
+  - destruct (next_block_at rfixed s (base_of (file s) m)) as [s1 e1] eqn:N.
+    destruct (nba_ok _ _ _ _ B N) as [B1 [S1 K]].
+    destruct (e1 =? 0) eqn:E.
+    + apply Z.eqb_eq in E. destruct (K E) as [V [_ Cb]].
+      injection H as H; subst s'. simpl in *. repeat split; auto.
+      rewrite <- Cb. rewrite <- S. apply B'. exact V.
+    + injection H as H1 H2. apply Z.eqb_neq in E. congruence.
+  - apply orb_false_elim in C. destruct C as [C1 C2].
+    apply negb_false_iff in C1. apply negb_false_iff in C2. apply Z.eqb_eq in C1.
+    injection H as H; subst s'. simpl in *. repeat split; auto.
+    rewrite C1. apply B. exact C2.
+Qed.
+
+Lemma seek_retry_gen : forall f x trans seekk ops m w w',
+  let '(s0, _) := ropen rfixed f x trans seekk in
+  let s := exec rfixed s0 ops in
+  forall s1 e1 s2, do_seek rfixed s m w = (s1, e1) -> e1 <> 0 ->
+    do_seek rfixed s1 m w' = (s2, 0) ->
+    cvalid s2 = true /\ cbase s2 = base_of f m /\ coff s2 = w' /\
+    member_at f (base_of f m) = Some (chsize s2, cdata s2).
+Proof.
+  intros f x trans seekk ops m w w'. unfold ropen.
+  destruct (fetch rfixed (rinit f x trans seekk)) as [s0 e0] eqn:F.
+  destruct (fetch_ok (rinit f x trans seekk) _ _ (eq_refl : croff (rinit f x trans seekk) = r_pos (src (rinit f x trans seekk))) F) as [B0 [S0 _]]. unfold same_file in S0. simpl in S0.
+  destruct (exec_ok ops s0 B0) as [B S].
+  intros s1 e1 s2 H1 NE H2.
+  destruct (seek_ok _ _ _ _ _ B H1) as [B1 S1]. unfold same_file in S1.
+  destruct (seek_lands _ _ _ _ B1 H2) as [V [Cb [Co [_ M]]]].
+  rewrite S1, S, S0 in *. repeat split; auto.
+Qed.
+
+(** countReader.seek as in the seeded defect (offset recorded before the
+    underlying Seek is known to have succeeded): the retry after a failed
+    Seek skips the real seek and serves the member that follows the old
+    position under the requested base. *)
+Lemma seek_retry_refuted_gen :
+  exists f ops,
+    let v := {| rv_inval := true; rv_late := false |} in
+    let '(s0, _) := ropen v f (-1) 0 0 in
+    run_ops v s0 ops = [(1, []); (0, []); (0, [3; 4])] /\
+    run_ops rfixed s0 ops = [(1, []); (0, []); (0, [5; 6])].
+Proof.
+  exists [(74, [1; 2]); (85, [3; 4]); (60, [5; 6]); (28, [])], [RSeek 2 0; RSeek 2 0; RRead 2].
+  vm_compute. split; reflexivity.
 Qed.
 
 (** The code before the repair: a block that is served although its data
     belongs to another member. *)
 Lemma reader_stale_block_gen :
   exists f x ops,
-    let '(s0, _) := ropen false f x 0 (-1) in
-    let s := exec false s0 ops in
+    let '(s0, _) := ropen {| rv_inval := false; rv_late := true |} f x 0 (-1) in
+    let s := exec {| rv_inval := false; rv_late := true |} s0 ops in
     cvalid s = true /\ member_at f (cbase s) <> Some (chsize s, cdata s) /\
-    exists m, run_ops false s0 (ops ++ [RSeek m 0; RRead 2]) = run_ops false s0 ops ++ [(0, []); (0, [1; 2])]
+    exists m, run_ops {| rv_inval := false; rv_late := true |} s0 (ops ++ [RSeek m 0; RRead 2]) = run_ops {| rv_inval := false; rv_late := true |} s0 ops ++ [(0, []); (0, [1; 2])]
               /\ base_of f (Z.to_nat m) = 74.
 Proof.
   exists [(74, [1; 2]); (85, [3; 4]); (28, [])], 80, [RRead 2; RRead 1].
